@@ -116,6 +116,8 @@ func init() {
 		vC06(seed, count, extra)
 	case "tsrc":
 		vTSrc(extra)
+	case "c07":
+		vC07(seed, count, extra)
 	case "transpile-stdin":
 		// one hex-encoded source per line -> "ok <hex go>" | "err <hex msg>"
 		sc := bufio.NewScanner(os.Stdin)
